@@ -1,6 +1,9 @@
 package props
 
-import "testing"
+import (
+	"fmt"
+	"testing"
+)
 
 func TestC07Rapid(t *testing.T) { C07Block.RunRapid(t) }
 func TestC08Rapid(t *testing.T) { C08FL.RunRapid(t) }
@@ -65,3 +68,64 @@ func TestC06Grid(t *testing.T) {
 			}
 		})
 }
+
+func TestC09Rapid(t *testing.T) { C09NA.RunRapid(t) }
+
+func TestC10Rapid(t *testing.T) { C10Num.RunRapid(t) }
+func TestC10Enum(t *testing.T) {
+	n := envInt("VERIF_C10_DIGITS", 5)
+	for _, pos := range []string{"port_hostport", "port_userhost", "clen", "cseq"} {
+		pos := pos
+		C10Num.RunShards(t, fmt.Sprintf("%s: all digit strings of length 1..%d", pos, n), true, 32, func(s int, emit func(CaseNum) bool) {
+			enumDigitStrings(n, s, 32, func(d B) bool { return emit(CaseNum{Pos: pos, Digits: d}) })
+		})
+	}
+	// the neighbourhood of every boundary in every position, with every cut
+	C10Num.RunCases(t, "every listed boundary +-20 in every numeric position, one-shot and cut after every digit", true, func(emit func(CaseNum) bool) {
+		for _, b := range numBoundaries {
+			for dlt := -20; dlt <= 20; dlt++ {
+				ds := addSmall(b, dlt)
+				for _, pos := range numPositions {
+					if pos == "q" {
+						continue
+					}
+					for cut := 0; cut < len(ds); cut++ {
+						if !emit(CaseNum{Pos: pos, Digits: B(ds), Cut: cut}) {
+							return
+						}
+					}
+				}
+			}
+		}
+	})
+	// q: every integer part 0..20 x every fraction of 0..4 digits
+	C10Num.RunCases(t, "q: integer part 0..20 and 2^64+{0,1} x no dot / dot + every fraction of 0..4 digits", true, func(emit func(CaseNum) bool) {
+		ints := []string{"18446744073709551616", "18446744073709551617", "00", "01", "000000000000000000001"}
+		for i := 0; i <= 20; i++ {
+			ints = append(ints, fmt.Sprintf("%d", i))
+		}
+		for _, ip := range ints {
+			if !emit(CaseNum{Pos: "q", Digits: B(ip)}) {
+				return
+			}
+			for l := 0; l <= 4; l++ {
+				tot := 1
+				for k := 0; k < l; k++ {
+					tot *= 10
+				}
+				for x := 0; x < tot; x++ {
+					fr := ""
+					if l > 0 {
+						fr = fmt.Sprintf("%0*d", l, x)
+					}
+					if !emit(CaseNum{Pos: "q", Digits: B(ip), Dot: true, Frac: B(fr)}) {
+						return
+					}
+				}
+			}
+		}
+	})
+}
+
+func TestC17Rapid(t *testing.T)    { C17List.RunRapid(t) }
+func TestC17ViaRapid(t *testing.T) { C17Via.RunRapid(t) }
